@@ -4,10 +4,12 @@
 package quiesce
 
 import (
+	"bytes"
 	"regexp"
 	"runtime"
 	"sort"
 	"strings"
+	"sync"
 	"time"
 )
 
@@ -142,8 +144,100 @@ func signature(gs []G, self string) (string, bool) {
 	return strings.Join(parts, "\n"), true
 }
 
-// Wait blocks until the process is quiescent or the watchdog fires.
-// The caller's goroutine is recognised by being the one "running" inside quiesce.
+var (
+	bufMu   sync.Mutex
+	dumpBuf = make([]byte, 4<<20)
+)
+
+// fastSig computes an order-independent hash of the non-whitelisted goroutines (id, state, top
+// frames) of a raw dump without allocating; ok is false when one of them is active.
+func fastSig(buf []byte, self string) (sig uint64, ok bool) {
+	selfB := []byte(self)
+	for len(buf) > 0 {
+		var blk []byte
+		if i := bytes.Index(buf, []byte("\n\n")); i >= 0 {
+			blk, buf = buf[:i], buf[i+2:]
+		} else {
+			blk, buf = buf, nil
+		}
+		if !bytes.HasPrefix(blk, []byte("goroutine ")) {
+			continue
+		}
+		skip := false
+		for _, w := range whitelistB {
+			if bytes.Contains(blk, w) {
+				skip = true
+				break
+			}
+		}
+		if skip || (len(selfB) > 0 && bytes.Contains(blk, selfB)) {
+			continue
+		}
+		nl := bytes.IndexByte(blk, '\n')
+		hdr := blk
+		if nl >= 0 {
+			hdr = blk[:nl]
+		}
+		lb := bytes.IndexByte(hdr, '[')
+		if lb < 0 {
+			continue
+		}
+		st := hdr[lb+1:]
+		if e := bytes.IndexAny(st, ",]"); e >= 0 {
+			st = st[:e]
+		}
+		switch string(st) {
+		case "running", "runnable", "syscall", "sleep":
+			return 0, false
+		}
+		h := uint64(14695981039346656037)
+		mix := func(b []byte) {
+			for _, c := range b {
+				h ^= uint64(c)
+				h *= 1099511628211
+			}
+		}
+		mix(hdr[:lb]) // "goroutine N "
+		mix(st)
+		// top 4 function lines
+		rest := blk
+		if nl >= 0 {
+			rest = blk[nl+1:]
+		} else {
+			rest = nil
+		}
+		n := 0
+		for len(rest) > 0 && n < 4 {
+			var line []byte
+			if i := bytes.IndexByte(rest, '\n'); i >= 0 {
+				line, rest = rest[:i], rest[i+1:]
+			} else {
+				line, rest = rest, nil
+			}
+			if len(line) == 0 || line[0] == '\t' || bytes.HasPrefix(line, []byte("created by ")) {
+				continue
+			}
+			if i := bytes.LastIndexByte(line, '('); i > 0 {
+				line = line[:i]
+			}
+			mix(line)
+			n++
+		}
+		sig += h*0x9E3779B97F4A7C15 + 1
+	}
+	return sig, true
+}
+
+var whitelistB = func() [][]byte {
+	var out [][]byte
+	for _, w := range whitelist {
+		out = append(out, []byte(w))
+	}
+	return out
+}()
+
+// Wait blocks until the process is quiescent or the watchdog fires. Sampling does not allocate
+// (the goroutine dump goes into a reused buffer and is hashed in place); only the final dump is parsed.
 func Wait(o Options) Result {
 	if o.Samples == 0 {
 		o.Samples = 3
@@ -154,20 +248,28 @@ func Wait(o Options) Result {
 	if o.Timeout == 0 {
 		o.Timeout = 30 * time.Second
 	}
+	if o.Self == "" {
+		o.Self = "verifharness/quiesce.Wait"
+	}
+	bufMu.Lock()
+	defer bufMu.Unlock()
 	deadline := time.Now().Add(o.Timeout)
-	var last string
-	var lastExtra uint64
+	var last, lastExtra uint64
 	same := 0
 	n := 0
 	for {
-		gs := Dump()
+		k := runtime.Stack(dumpBuf, true)
+		for k >= len(dumpBuf) {
+			dumpBuf = make([]byte, 2*len(dumpBuf))
+			k = runtime.Stack(dumpBuf, true)
+		}
 		n++
-		sig, ok := signature(gs, o.Self)
+		sig, ok := fastSig(dumpBuf[:k], o.Self)
 		var ex uint64
 		if o.Extra != nil {
 			ex = o.Extra()
 		}
-		if ok && sig == last && ex == lastExtra {
+		if ok && same > 0 && sig == last && ex == lastExtra {
 			same++
 		} else if ok {
 			same = 1
@@ -175,13 +277,12 @@ func Wait(o Options) Result {
 			lastExtra = ex
 		} else {
 			same = 0
-			last = ""
 		}
 		if same >= o.Samples {
-			return Result{true, n, gs}
+			return Result{true, n, Parse(string(dumpBuf[:k]))}
 		}
 		if time.Now().After(deadline) {
-			return Result{false, n, gs}
+			return Result{false, n, Parse(string(dumpBuf[:k]))}
 		}
 		time.Sleep(o.Interval)
 	}
